@@ -21,6 +21,7 @@ MIN_NONTRIVIAL = {'quick': 100, 'thorough': 3000}
 LIMIT_S = 20
 N_NET = {'quick': 260, 'thorough': 9000}
 BATCH = 150
+MAX_TIMEOUTS = 3
 
 
 def assumptions(run):
@@ -92,7 +93,7 @@ def run_children(cases, d, limit_s=LIMIT_S, deadline=None):
         outp = os.path.join(d, 'res-%d.jsonl' % n_children)
         n_children += 1
         with open(job, 'w') as f:
-            json.dump(dict(limit_s=limit_s, cases=batch), f)
+            json.dump(dict(limit_s=limit_s, max_timeouts=MAX_TIMEOUTS, cases=batch), f)
         open(outp, 'w').close()
         env = dict(os.environ, PYTHONHASHSEED='0', MPLBACKEND='Agg')
         p = subprocess.Popen([PYTHON, '-m', 'vlib.c18child', job, outp], cwd=ROOT, env=env, stdout=subprocess.DEVNULL, stderr=subprocess.PIPE)
@@ -137,11 +138,18 @@ def run_children(cases, d, limit_s=LIMIT_S, deadline=None):
                                     child_died=None if killed else (err or b'').decode(errors='replace')[-300:])
             rest = [c for c in batch if c['idx'] not in results]
             todo = rest + todo
+            # a few non-terminating schematics decide the run; do not pay 20 s for each of the remaining ones
+            if sum(1 for r in results.values() if isinstance(r, dict) and r.get('timeout')) >= MAX_TIMEOUTS:
+                results['stopped_early'] = True
+                break
         elif not killed and p.returncode not in (0, None):
             rest = [c for c in batch if c['idx'] not in results]
             for c in rest[:1]:
                 results[c['idx']] = dict(idx=c['idx'], harness_error='child exited rc=%s: %s' % (p.returncode, (err or b'').decode(errors='replace')[-300:]))
             todo = rest[1:] + todo
+        if sum(1 for r in results.values() if isinstance(r, dict) and r.get('timeout')) >= MAX_TIMEOUTS:
+            results['stopped_early'] = True
+            break
         if deadline and time.time() > deadline:
             break
     return results
@@ -232,7 +240,9 @@ def run_check(run, tier, seed, shard):
             run.sample(dict(case=describe(c), seconds=r['dt'], stats=r['stats'], swallowed=r['swallowed'], problems=r['n_problems']))
         if run.too_many:
             break
-    if missing:
+    if results.get('stopped_early'):
+        run.count('cases_not_run_after_%d_timeouts' % MAX_TIMEOUTS, missing)
+    elif missing:
         run.inconclusive.append('%d cases were never reported by a child (watchdog)' % missing)
     if shard is None:
         floor(run, tier)
